@@ -1,2 +1,36 @@
+(* C03 - Step-limited (LM) move duration is the first tick that exhausts the step budget.  Statements only.
+   What is proved: an O(1) checker is equivalent, for all integers, to the tick-by-tick specification (Spec/LmSpec.v), plus the
+   consequences and the "cannot move" cases.  Every output of calculate_lm / moveTimeLM that the harness generates is decided
+   by that checker inside Coq.  No theorem is stated about the text of calculate_lm (mpmath sqrt / ceil): see DESIGN.md. *)
 From Plotink Require Import Base.Prelude Spec.Firmware Spec.LmSpec Spec.LmCheck Proofs.LmProofs.
-Example C03_smoke : lm_check 1 9 (-1) (Some 0) 18 (-1) 2147483639 = true. Proof. vm_compute. reflexivity. Qed.
+Open Scope Z_scope.
+
+Theorem C03_checker_iff_spec : forall steps rate accel accum T p c,
+  lm_check steps rate accel accum T p c = true <-> lm_spec steps rate accel accum T p c.
+Proof. exact lm_check_iff_spec. Qed.
+
+(* the number of steps taken through tick n, in closed form (one sign change of the rate at most), for every n *)
+Theorem C03_steps_closed_form : forall r0 a acc n, lm_steps r0 a acc n = csteps r0 a acc (Z.of_nat n).
+Proof. intros. rewrite lm_steps_Vseg. apply steps_closed. Qed.
+
+Theorem C03_consequence : forall steps rate accel accum T p c, 0 < steps ->
+  lm_check steps rate accel accum T p c = true ->
+  (T = 0 /\ p = 0 /\ c = 0) \/ (1 <= T /\ 0 <= c < B31 /\ lt_closed' rate accel T accum = (p, c)).
+Proof. exact lm_consequence. Qed.
+
+Theorem C03_invalid : forall steps rate accel accum,
+  (steps = 0 \/ (rate = 0 /\ accel = 0) \/ (steps < 0 /\ rate < 0)) ->
+  forall T p c, lm_spec steps rate accel accum T p c <-> (T = 0 /\ p = 0 /\ c = 0).
+Proof. exact lm_invalid. Qed.
+
+(* the three defect classes of the tree as found (547df41), as outputs the specification rejects, with the right answers *)
+Example C03_as_found_refuted :
+  lm_check 2 4271570 (-3429980) None 0 2 (-4294967296) = false /\ lm_check 2 4271570 (-3429980) None 37 (-2) 2105194076 = true /\
+  lm_check 1 9 (-1) (Some 0) 17 (-1) 2147483648 = false /\ lm_check 1 9 (-1) (Some 0) 18 (-1) 2147483639 = true /\
+  lm_check 2 2 (-1) (Some 2147483647) 0 0 2147483647 = false.
+Proof. vm_compute. repeat split; reflexivity. Qed.
+
+Print Assumptions C03_checker_iff_spec.
+Print Assumptions C03_steps_closed_form.
+Print Assumptions C03_consequence.
+Print Assumptions C03_invalid.
